@@ -2625,13 +2625,24 @@ write_module_class(ostream &out, Object *obj) {
 
           // Iterate through the remaps to find the one that matches our
           // parameters.
-          for (FunctionRemap *remap : def._remaps) {
+          // (Go by wrapper index, not by address, and take the first const
+          // and the first non-const overload, so that the choice between
+          // several of a kind does not depend on where they live in memory.)
+          std::vector<FunctionRemap *> sorted_remaps(def._remaps.begin(), def._remaps.end());
+          std::sort(sorted_remaps.begin(), sorted_remaps.end(), compare_remaps_by_index);
+          for (FunctionRemap *remap : sorted_remaps) {
             if (remap->_const_method) {
+              if (remap_const != nullptr) {
+                continue;
+              }
               if ((remap->_flags & FunctionRemap::F_explicit_self) == 0) {
                 params_const.push_back("self");
               }
               remap_const = remap;
             } else {
+              if (remap_nonconst != nullptr) {
+                continue;
+              }
               if ((remap->_flags & FunctionRemap::F_explicit_self) == 0) {
                 params_nonconst.push_back("self");
               }
@@ -2692,13 +2703,24 @@ write_module_class(ostream &out, Object *obj) {
 
           // Iterate through the remaps to find the one that matches our
           // parameters.
-          for (FunctionRemap *remap : def._remaps) {
+          // (Go by wrapper index, not by address, and take the first const
+          // and the first non-const overload, so that the choice between
+          // several of a kind does not depend on where they live in memory.)
+          std::vector<FunctionRemap *> sorted_remaps(def._remaps.begin(), def._remaps.end());
+          std::sort(sorted_remaps.begin(), sorted_remaps.end(), compare_remaps_by_index);
+          for (FunctionRemap *remap : sorted_remaps) {
             if (remap->_const_method) {
+              if (remap_const != nullptr) {
+                continue;
+              }
               if ((remap->_flags & FunctionRemap::F_explicit_self) == 0) {
                 params_const.push_back("self");
               }
               remap_const = remap;
             } else {
+              if (remap_nonconst != nullptr) {
+                continue;
+              }
               if ((remap->_flags & FunctionRemap::F_explicit_self) == 0) {
                 params_nonconst.push_back("self");
               }
